@@ -270,7 +270,7 @@ theorem opR_sim : ∀ op : Op, Sim (opR false op) (specOp op)
   | .chmod p _ => sim_out _ (atPath_sim (sim_setMeta _) p)
   | .touch p _ => sim_out _ (atPath_sim (sim_setMeta _) p)
   | .write p _ _ sync => sim_out _ (atPath_sim (sim_write sync _) p)
-  | .trunc p _ => sim_out _ (atPath_sim (sim_write true _) p)
+  | .trunc p _ sync => sim_out _ (atPath_sim (sim_write sync _) p)
   | .read p => sim_out _ (atPath_sim sim_read p)
   | .flush p => sim_out _ (atPath_sim sim_flush p)
   | .stat p => sim_out _ (atPath_sim sim_stat p)
